@@ -73,18 +73,34 @@ func (c *Ctx) fld(role string) string {
 		abort("unknown field role %s", role)
 	}
 	tn := c.typeObj(spec.pkg, spec.typ)
-	st := tn.Type().Underlying().(*types.Struct)
 	var cands []*types.Var
-	for i := 0; i < st.NumFields(); i++ {
-		f := st.Field(i)
-		if f.Embedded() || !c.fieldTypeMatches(spec.pkg, f.Type(), spec.typeStr) {
-			continue
+	owner := map[*types.Var]*types.TypeName{}
+	var collect func(t *types.TypeName, depth int)
+	collect = func(t *types.TypeName, depth int) {
+		st, ok := t.Type().Underlying().(*types.Struct)
+		if !ok || depth > 2 {
+			return
 		}
-		if spec.mark != nil && !spec.mark(c, tn, f) {
-			continue
+		for i := 0; i < st.NumFields(); i++ {
+			f := st.Field(i)
+			if f.Embedded() {
+				// fields grouped into an unexported struct that is embedded by value are still fields of the type
+				if en, ok := f.Type().(*types.Named); ok && en.Obj().Pkg() == t.Pkg() && !en.Obj().Exported() {
+					collect(en.Obj(), depth+1)
+				}
+				continue
+			}
+			if !c.fieldTypeMatches(spec.pkg, f.Type(), spec.typeStr) {
+				continue
+			}
+			if spec.mark != nil && !spec.mark(c, t, f) {
+				continue
+			}
+			cands = append(cands, f)
+			owner[f] = t
 		}
-		cands = append(cands, f)
 	}
+	collect(tn, 0)
 	name := ""
 	switch {
 	case len(cands) == 1:
@@ -105,7 +121,31 @@ func (c *Ctx) fld(role string) string {
 		abort("field role %s of %s.%s (type %s) cannot be resolved uniquely: candidates %v", role, spec.pkg, spec.typ, spec.typeStr, l)
 	}
 	c.roles[role] = name
+	for f, t := range owner {
+		if f.Name() == name {
+			if c.roleOwner == nil {
+				c.roleOwner = map[string]*types.TypeName{}
+			}
+			c.roleOwner[role] = t
+		}
+	}
 	return name
+}
+
+// fldOwner: the struct type that declares the field playing the role (the type the role names, or
+// an unexported struct embedded in it).
+func (c *Ctx) fldOwner(role string) *types.TypeName {
+	c.fld(role)
+	if t := c.roleOwner[role]; t != nil {
+		return t
+	}
+	spec := roleSpecs[role]
+	return c.typeObj(spec.pkg, spec.typ)
+}
+
+// fldKey: the fact engine's name for the field playing the role.
+func (c *Ctx) fldKey(role string) string {
+	return types.TypeString(c.fldOwner(role).Type(), nil) + "." + c.fld(role)
 }
 
 func (c *Ctx) storesTo(tn *types.TypeName, f *types.Var, visit func(fn *ssa.Function, st *ssa.Store)) {
@@ -148,11 +188,34 @@ func markConstStoresOnly(c *Ctx, tn *types.TypeName, f *types.Var) bool {
 	n, all := 0, true
 	c.storesTo(tn, f, func(fn *ssa.Function, st *ssa.Store) {
 		n++
-		if _, ok := st.Val.(*ssa.Const); !ok {
+		if !constOrChoice(st.Val, 0) {
 			all = false
 		}
 	})
 	return n > 0 && all
+}
+
+// constOrChoice: a constant, or a choice (φ) between such values, possibly through a conversion.
+func constOrChoice(v ssa.Value, depth int) bool {
+	if depth > 4 {
+		return false
+	}
+	switch x := v.(type) {
+	case *ssa.Const:
+		return true
+	case *ssa.Phi:
+		for _, e := range x.Edges {
+			if !constOrChoice(e, depth+1) {
+				return false
+			}
+		}
+		return true
+	case *ssa.Convert:
+		return constOrChoice(x.X, depth+1)
+	case *ssa.ChangeType:
+		return constOrChoice(x.X, depth+1)
+	}
+	return false
 }
 
 func markStoredIn(c *Ctx, tn *types.TypeName, f *types.Var, fname string) bool {
